@@ -11,7 +11,7 @@
     so the penetration depth min_n h_{A-B}(n) lies in [r, D]. *)
 From Coq Require Import QArith Qreals Reals List.
 From D3 Require Import Base.Ops Base.Vec Base.RVec Spec.Convex Checker.Shapes Checker.Narrow Checker.Pen.
-From D3 Require Import Model.Epa Proofs.Epa.
+From D3 Require Import Model.Epa Model.EpaRun Proofs.Epa.
 From Coq Require Import Lra.
 Import ListNotations.
 
@@ -78,17 +78,62 @@ Example C07_nonvacuous :
   /\ too_long_cert ex_cube1 ex_cube2 (V 1 0 0) (V (1 # 2) 0 0) (1 # 1000000) = false.
 Proof. repeat split; vm_compute; reflexivity. Qed.
 
-(** ** about the model of epa()'s success exit (Model/Epa.v), exact real arithmetic, all inputs.
-    PARTIAL: only the exit step is modelled.  Missing: that the exit direction is the direction of minimum
-    extent (polytope invariant of the expansion loop, not modelled) and that the Euclidean gap after the
-    translation is 0 (needs mtv in A - B); both are decided per run by the certificates above. *)
-Theorem C07_epa_success_upper_partial : forall (A B : set3) (n pa pb : V3R),
+(** ** about the model of epa() (Model/Epa.v: the whole loop as of /repo 3c14c49, tied to the code by the
+    binary64 correspondence run of harness/props/c07.py), exact real arithmetic, all inputs. *)
+(** the success exit in isolation *)
+Theorem C07_epa_exit_separates : forall (A B : set3) (n pa pb : V3R),
   norm n = 1%R -> is_support A n pa -> is_support B (vneg n) pb ->
   let mtv := epa_exit_mtv (O:=ROps) n pa pb in
   (forall a b, A a -> translate mtv B b -> (dot (vsub a b) n <= 0)%R) /\
   dot (vsub pa (vadd pb mtv)) n = 0%R /\
   norm mtv = Rabs (dot (vsub pa pb) n).
 Proof. exact epa_exit_separates. Qed.
+
+(** epa_success_upper: whenever the modelled loop reports success -- any simplex, any number of iterations, any
+    capacities -- and the colliders' support mappings are true support mappings, the returned vector is zero or
+    points along a unit direction n with: no point of A beyond a point of B+mtv along n (no residual overlap in
+    that direction), (a-b).n <= mtv.n for all a, b, and |mtv| = |mtv.n|, i.e. |mtv| is the extent of A-B along n:
+    an UPPER bound of the penetration depth.  NOT proved (partial w.r.t. the property): that n minimises the
+    extent (minimality needs a polytope invariant of the expansion that is not established; it is decided per
+    run by depth_ge_cert) and that the Euclidean gap after the translation is 0 (decided per run by near_cert). *)
+Theorem C07_epa_success_upper : forall (A B : set3) (sup : V3R -> V3R * V3R) (s0 s1 s2 s3 : V3R) fuel ml mf eps mtv fs,
+  (forall d, is_support A d (fst (sup d)) /\ is_support B (vneg d) (snd (sup d))) ->
+  epa (O:=ROps) sup s0 s1 s2 s3 fuel ml mf eps = EpaSuccess mtv fs ->
+  mtv = vzero \/
+  exists n, norm n = 1%R /\
+    (forall a b, A a -> translate mtv B b -> (dot (vsub a b) n <= 0)%R) /\
+    (forall a b, A a -> B b -> (dot (vsub a b) n <= dot mtv n)%R) /\
+    norm mtv = Rabs (dot mtv n).
+Proof. exact epa_success_upper. Qed.
+
+(** the initial polytope (3c14c49): for a non-degenerate simplex of either orientation the four faces ABC, ACD,
+    ADB, BDC are wound so that each raw normal points away from the vertex the face does not contain *)
+Theorem C07_epa_initial_polytope_outward : forall (s0 s1 s2 s3 : V3R),
+  tet_det s0 s1 s2 s3 <> 0%R ->
+  let b := if init_flip (O:=ROps) s0 s1 s2 s3 then s2 else s1 in
+  let c := if init_flip (O:=ROps) s0 s1 s2 s3 then s1 else s2 in
+  init_faces (O:=ROps) s0 s1 s2 s3 = [mk_face s0 b c; mk_face s0 c s3; mk_face s0 s3 b; mk_face b s3 c] /\
+  (dot (raw_normal (mk_face (O:=ROps) s0 b c)) (vsub s3 s0) < 0)%R /\
+  (dot (raw_normal (mk_face (O:=ROps) s0 c s3)) (vsub b s0) < 0)%R /\
+  (dot (raw_normal (mk_face (O:=ROps) s0 s3 b)) (vsub c s0) < 0)%R /\
+  (dot (raw_normal (mk_face (O:=ROps) b s3 c)) (vsub s0 b) < 0)%R.
+Proof. exact init_faces_outward. Qed.
+
+(** the modelled loop does reach its success exit: binary64 instance, cube [-1,1]^3 against the cube shifted by
+    (1.5,0,0), a simplex of inward orientation: vector (0.5,0,0), 6 faces *)
+Module FloatEx.
+Import PrimFloat.
+Definition ex_cubeF (c s : PrimFloat.float) : list (V3 PrimFloat.float) :=
+  let m := PrimFloat.opp s in
+  [V (PrimFloat.sub c s) m m; V (PrimFloat.sub c s) m s; V (PrimFloat.sub c s) s m; V (PrimFloat.sub c s) s s;
+   V (PrimFloat.add c s) m m; V (PrimFloat.add c s) m s; V (PrimFloat.add c s) s m; V (PrimFloat.add c s) s s].
+Example C07_epa_model_nonvacuous :
+  epa_run 0x1.5798ee2308c3ap-27%float 64 32 64 (ex_cubeF 0%float 1%float) (ex_cubeF 1.5%float 1%float)
+          (V (-2.5)%float (-2)%float (-2)%float) (V 0.5%float 2%float (-1)%float)
+          (V 0.5%float (-2)%float 2%float) (V 0.5%float 1%float 2%float)
+  = (1%nat, V 0.5%float 0%float 0%float, 6%nat).
+Proof. vm_compute. reflexivity. Qed.
+End FloatEx.
 
 Example C07_epa_exit_nonvacuous :
   let pa : V3R := V 1%R 0%R 0%R in
@@ -113,5 +158,8 @@ Print Assumptions C07_touching_after_translation_sound.
 Print Assumptions C07_result_certificate_sound.
 Print Assumptions C07_too_long_refutation_sound.
 Print Assumptions C07_nonvacuous.
-Print Assumptions C07_epa_success_upper_partial.
+Print Assumptions C07_epa_exit_separates.
+Print Assumptions C07_epa_success_upper.
+Print Assumptions C07_epa_initial_polytope_outward.
+Print Assumptions FloatEx.C07_epa_model_nonvacuous.
 Print Assumptions C07_epa_exit_nonvacuous.
